@@ -5,6 +5,7 @@ import PnaVerif.Model.Canon
 import PnaVerif.Model.Toy
 import PnaVerif.Model.Pipeline
 import PnaVerif.Model.Split
+import PnaVerif.Model.Solid
 import PnaVerif.Model.Cli.Wire
 /-
   Line-protocol driver: one request per line on stdin, one canonical answer per line on stdout.
@@ -151,6 +152,12 @@ def handle (line : String) : String :=
     match parseChunks cs with
     | some cs => outcomeS (fun e => chunkListS (serEntry e)) ((parseEntry cs).bind fun e => parseEntry (serEntry e))
     | none => "bad-op"
+  | ["solid.iter", h, term] =>
+    match ofHex h, (if term == "none" then some none else (parseErr term).map some) with
+    | some b, some t =>
+      let items := solidEntries { bytes := b, term := t }
+      s!"n={items.length}" ++ String.join (items.map fun i => " | " ++ outcomeS Canon.normalS i)
+    | _, _ => "bad-op"
   | ["flatw", n, ws] =>
     match n.toNat?, parseBytesList ws with
     | some n, some ws => "ok " ++ bytesListS (flattenWriter n ws)
